@@ -1,3 +1,9 @@
 import Gsu.Model.DbDrive
-/-! C02 driver: the shared M-DB physical model behind the line protocol (see Gsu/Model/DbDrive.lean). -/
-def main : IO Unit := Gsu.Proto.runS Gsu.Db.State.init Gsu.Db.driveStep
+import Gsu.Model.Share
+/-! C02 driver: the shared M-DB physical model behind the line protocol (Gsu/Model/DbDrive.lean);
+lines `sh-…` go to the sharing/heap model (Gsu/Model/Share.lean). -/
+def step (s : Gsu.Db.State) (l : List String) : Gsu.Db.State × String :=
+  match l with
+  | op :: _ => if op.startsWith "sh-" then (s, Gsu.Share.drive l) else Gsu.Db.driveStep s l
+  | [] => Gsu.Db.driveStep s l
+def main : IO Unit := Gsu.Proto.runS Gsu.Db.State.init step
